@@ -43,4 +43,17 @@ var props = map[string]*propDef{
 			{Name: "proto.VerifC17Query", Quick: map[string]int{"maxstr": 1, "maxsettings": 1, "maxparams": 1, "nwide": 2, "maxkey": 0, "obsolete": 0}, Thorough: map[string]int{"maxstr": 2, "maxsettings": 2, "maxparams": 1, "nwide": 8, "maxkey": 0}},
 		},
 	},
+	"C01": {
+		ID: "C01", Level: "model_checking", Rule: ruleDefault,
+		Assumptions: append([]string{
+			"oracle = the values the harness appended (plain Go slices) and the bytes of a second encoding into an empty buffer",
+		}, baseAssumptions...),
+		Harnesses: []harnessDef{
+			{Name: "proto.VerifC01GenLeaves", Quick: map[string]int{"maxrows": 2}, Thorough: map[string]int{"maxrows": 4}},
+			{Name: "proto.VerifC01PlainLeaves", Quick: map[string]int{"maxrows": 2, "maxstr": 2}, Thorough: map[string]int{"maxrows": 3, "maxstr": 2}},
+			{Name: "proto.VerifC01Composites", Quick: map[string]int{"maxrows": 2, "maxstr": 1, "maxinner": 2}, Thorough: map[string]int{"maxrows": 3, "maxstr": 2, "maxinner": 2}},
+			{Name: "proto.VerifC01PlainLeaves", Tags: "verif,purego", Quick: map[string]int{"maxrows": 2, "maxstr": 1}, Thorough: map[string]int{"maxrows": 3, "maxstr": 2}},
+			{Name: "proto.VerifC01GenLeaves", Tags: "verif,purego", Quick: map[string]int{"maxrows": 2}, Thorough: map[string]int{"maxrows": 4}},
+		},
+	},
 }
